@@ -19,14 +19,20 @@
       of a `Drop` (the model proves more than the property asks for);
   `drop_owner` closes the argument: dropping a well-formed owner drops exactly its contents.
 
-  Algorithms covered here: `retain`, `dedup_by`, `truncate`, `clear`, `pop`, `pop_if`, `remove`, `swap_remove`,
-  `push`, `insert`, `extend_from_slice_clone`, `resize` (`extend_with`), `resize_with` (`extend_trusted`),
-  `append`, `drain` (+ `keep_rest`), `extract_if`, `into_iter`, `map_in_place`; `MutBumpVecRev`: `push`, `pop`,
-  `clear`, `truncate`, `insert`, `remove`, `swap_remove`, `extend_from_slice_clone`, `resize`, `append`,
-  `into_iter`, drop (`partition` is in `Props/C16.lean`).  Each theorem rests on a refinement lemma
+  Algorithms covered here: `retain`, `dedup_by`, `dedup_by_key`, `truncate`, `clear`, `pop`, `pop_if`, `remove`,
+  `swap_remove`, `push`, `insert`, `extend_from_slice_clone`, `extend_from_within_clone`, `resize` (`extend_with`),
+  `resize_with` (`extend_trusted`), `append`, `drain` (+ `keep_rest`), `extract_if`, `into_iter`, `map_in_place`,
+  `BumpVec::splice` (`Coll/Splice.lean`), `BumpVec::map` (`Coll/MapVec.lean`, both code paths);
+  `MutBumpVecRev`: `push`, `pop`, `pop_if`, `clear`, `truncate`, `insert`, `remove`, `swap_remove`,
+  `extend_from_slice_clone`, `resize`, `resize_with`, `append`, `into_iter`, drop (`partition` and `into_flattened`
+  are in `Props/C16.lean`).  Each theorem rests on a refinement lemma
   `Lemmas/Coll*.lean : op v = .ok ⟨v.after (opSpec …), …⟩` (cursor/guard model = list-level description).
-  Not modelled (checked on the real types by the harness oracle only): `splice`, `dedup_by_key`,
-  `extend_from_within_clone`, `BumpVec::map`, `into_flattened`, zero-sized element types.
+  HISTORY LEVEL (`Coll/Run.lean`): `history_drops_once` / `history_never_drops_twice` — every finite sequence
+  of the 18 single-vector operations from a well-formed vector, by induction over the list.
+  Zero-sized element types (`Coll/Zst.lean`, by counts): `zst_drain_exactly_once` (the repaired
+  `owned_slice::Drain::drop`, incl. a panicking destructor inside `truncate`), `zst_into_iter_exactly_once`,
+  `zst_truncate_exactly_once`.
+  The freshness hypotheses of the cloning operations only ask for fresh ids when the reservation succeeds.
 -/
 import BumpProof.Coll.Spec
 import BumpProof.Coll.Run
@@ -42,6 +48,7 @@ import BumpProof.Lemmas.CollRev
 import BumpProof.Lemmas.CollRevPerm
 import BumpProof.Lemmas.CollZst
 import BumpProof.Lemmas.CollSplice
+import BumpProof.Lemmas.CollMapVec
 
 namespace C06
 open Coll
@@ -223,6 +230,23 @@ theorem insert_drops_once (env : Env) (v : Vec) (i : Nat) (id : Id) (hv : v.WF) 
     refine dropsOnce_inplace hv this (insertSpec_perm _ _ _ _) ?_ hfresh
     have : ¬ (i ≤ v.abs.length ∧ roomOne env v = true) := by omega
     simp [this] at hlen; omega
+
+/-- NOTE on the freshness hypotheses of `extend_from_slice_clone` / `extend_from_within_clone` / `resize_with`:
+    the clones only have to be fresh WHEN THE RESERVATION SUCCEEDS (when it is refused no clone is ever
+    made) — the weaker hypothesis is what the induction over histories (`step_drops_once`) needs.  The
+    examples right below exhibit successful reservations, so the `if … then clonedIds … else []` is not
+    vacuously `[]`. -/
+example : room { kind := .bump } (Vec.mk' [1, 2] 0) 2 = true ∧
+    extendFromSliceClone { kind := .bump } (Vec.mk' [1, 2] 0) 2 [.ret 5, .ret 6] =
+      .ok ⟨{ slots := I [1, 2, 5, 6], len := 4 }, .ret (), []⟩ := by decide
+
+/-- `resize_with(4, f)` on a full `BumpVec` `[1,2]` reserves, `f` makes 5 and panics at its second call -/
+example : resizeWith { kind := .bump } (Vec.mk' [1, 2] 0) 4 [.ret 5, .panic] =
+    .ok ⟨{ slots := I [1, 2, 5] ++ H 1, len := 3 }, .panic false, []⟩ := by decide
+
+/-- `extend_from_within_clone(0..2)` on a `FixedBumpVec` with room for two more -/
+example : extendFromWithinClone { kind := .fixed } (Vec.mk' [1, 2] 2) 0 2 [.ret 5, .ret 6] =
+    .ok ⟨{ slots := I [1, 2, 5, 6], len := 4 }, .ret (), []⟩ := by decide
 
 theorem extend_from_slice_clone_drops_once (env : Env) (v : Vec) (n : Nat) (o : List Outcome) (hv : v.WF)
     (hfresh : (v.total ++ (if room env v n then clonedIds n o else [])).Nodup) :
@@ -641,6 +665,75 @@ example : splice { kind := .bump } (Vec.mk' [1, 2, 3, 4, 5] 0) 1 3 [10, 11, 12, 
     is dropped unused -/
 example : splice { kind := .bump, bombs := [3] } (Vec.mk' [1, 2, 3, 4, 5, 6] 0) 1 5 [10, 11] 0 [] =
     .ok ⟨{ slots := I [1, 6] ++ H 4, len := 2, dropLog := [2, 3, 4, 5, 10, 11] }, .panic true, []⟩ := by decide
+
+/-! ## `BumpVec::map` (`Coll/MapVec.lean`: `generic_map`, both code paths) -/
+
+/-- `BumpVec<T>::map(f) -> BumpVec<U>` — for every layout pair (in place when `U` fits the slots of `T`, the
+    `from_iter_exact` fallback otherwise), every behaviour of `f` (a panic at any call) and every set of
+    panicking destructors: no fault (in particular no `U` is written over an unread `T`), the result is
+    well-formed (or empty after a panic), and every element and every result of `f` is accounted for exactly
+    once: in the new vector, dropped once by the guard / the unwind, or moved into `f` -/
+theorem vec_map_drops_once (bombs : List Id) (lay : MapLay) (v : Vec) (o : List Outcome) (hv : v.WF)
+    (hfresh : (v.total ++ mapIns v.abs o).Nodup) :
+    DropsOnce (vecMap bombs lay v o) v (mapIns v.abs o) := by
+  have ⟨hs, hl⟩ := hv.slots_eq
+  have heq := vecMap_eq bombs lay v v.abs o hs hl
+  have key : ∀ (b : Bool) (newCap len : Nat),
+      ((∃ a, (vecMapSpec b [] v.abs o).exit = .ret a) → len = (vecMapSpec b [] v.abs o).final.length) →
+      (mapAfter v newCap len (vecMapSpec b [] v.abs o)).WF ∧
+        (mapAfter v newCap len (vecMapSpec b [] v.abs o)).total.Perm (v.total ++ mapIns v.abs o) := by
+    intro b newCap len hlen
+    have hperm := vecMapSpec_perm b v.abs [] o
+    have hpanic := vecMapSpec_final_panic b v.abs [] o
+    generalize vecMapSpec b [] v.abs o = r at *
+    have htot : (mapAfter v newCap len r).total.Perm (v.total ++ mapIns v.abs o) := by
+      rw [hv.total_eq]
+      unfold mapAfter
+      cases hx : r.exit with
+      | ret a =>
+        simp only [Vec.total, idsOf_append, idsOf_I, idsOf_H, List.append_nil]
+        rw [List.perm_iff_count] at hperm ⊢
+        intro a; have := hperm a
+        simp only [List.count_append, List.nil_append] at this ⊢; omega
+      | panic d =>
+        have hf := hpanic d hx
+        simp only [Vec.total, idsOf]
+        rw [hf] at hperm
+        rw [List.perm_iff_count] at hperm ⊢
+        intro a; have := hperm a
+        simp only [List.count_append, List.nil_append, List.filterMap_nil, List.count_nil] at this ⊢; omega
+    refine ⟨⟨?_, htot.nodup_iff.mpr hfresh⟩, htot⟩
+    unfold mapAfter
+    cases hx : r.exit with
+    | ret a =>
+      refine ⟨r.final, ?_, (hlen ⟨a, hx⟩).symm⟩
+      simp only [Vec.cap, List.length_append, length_I, length_H]
+      rw [hlen ⟨a, hx⟩]; congr 2; omega
+    | panic d => exact ⟨[], by simp [Vec.cap], rfl⟩
+  by_cases hip : lay.inPlace = true
+  · simp only [hip, ↓reduceIte] at heq
+    have ⟨h1, h2⟩ := key false (v.cap * lay.st / lay.su) v.len (fun h => by
+      have := vecMapSpec_final false v.abs [] o h; simp at this; omega)
+    exact ⟨_, heq, h1, h2⟩
+  · simp only [hip, Bool.false_eq_true, ↓reduceIte] at heq
+    have ⟨h1, h2⟩ := key true v.len _ (fun _ => rfl)
+    exact ⟨_, heq, h1, h2⟩
+
+/-- non-vacuity: `[1,2,3]` (capacity 4, 16-byte elements) mapped to 8-byte elements in place: capacity 8;
+    and `f` panicking at its second call: the unread 3 and the result 7 are dropped, 1 and 2 went into `f` -/
+example : vecMap [] { st := 16, su := 8 } (Vec.mk' [1, 2, 3] 1) [.ret 7, .ret 8, .ret 9] =
+    .ok ⟨{ slots := I [7, 8, 9] ++ H 5, len := 3, escaped := [1, 2, 3] }, .ret (), []⟩ := by decide
+
+example : vecMap [] { st := 16, su := 8 } (Vec.mk' [1, 2, 3] 1) [.ret 7, .panic] =
+    .ok ⟨{ slots := [], len := 0, dropLog := [3, 7], escaped := [1, 2] }, .panic false, []⟩ := by decide
+
+/-- the fallback (bigger `U`) drops in the other order: the new vector first, then the old iterator -/
+example : vecMap [] { st := 16, su := 24 } (Vec.mk' [1, 2, 3] 1) [.ret 7, .panic] =
+    .ok ⟨{ slots := [], len := 0, dropLog := [7, 3], escaped := [1, 2] }, .panic false, []⟩ := by decide
+
+/-- the layout condition matters: the in-place loop on a BIGGER `U` would write `U` number 1 over the unread `T` number 1 -/
+example : vecMapLoop [] { st := 8, su := 16 } 4 3 3 (setLen (Vec.mk' [1, 2, 3] 1) 0) 0 [] [.ret 7, .ret 8, .ret 9] =
+    .error (.overwrite 1) := by decide
 
 /-! ## histories (`Coll/Run.lean`): any finite sequence of modelled operations -/
 
